@@ -10,6 +10,7 @@ Tie (re-run on every check):
 Every suite also runs the *implementation oracle*: the property's rules coded directly in Python (independent of the
 model) on the implementation's observable behaviour (return / exception class / events / close code)."""
 import itertools
+import json
 
 from vlib import core, corr
 
@@ -949,7 +950,21 @@ def tally_outcomes(suite, cases):
                     i += 2
 
 
+def _dedupe_violations(ctx):
+    """Report each (kind, signature) once per run: the exhaustive families hit the same defect many times."""
+    orig = ctx.violation
+    seen = {}
+
+    def violation(kind, what, case, signature=None, extra=None, no_input=False):
+        key = (kind, json.dumps(signature, sort_keys=True, default=str))
+        if key not in seen:
+            seen[key] = orig(kind, what, case, signature=signature, extra=extra, no_input=no_input)
+        return seen[key]
+    ctx.violation = violation
+
+
 def run(ctx):
+    _dedupe_violations(ctx)
     v, s, e = suites(ctx)
     v.run(corr.load_corpus("C15", "validate"), "corpus")
     s.run(corr.load_corpus("C15", "stream"), "corpus")
